@@ -167,6 +167,10 @@ class Campaign:
             return
         if vd == "bad":
             b = v["res"]["bad"][0]
+            for cand in v["res"]["bad"]:
+                if cand["p"] in self.own:
+                    b = cand
+                    break
             if b["p"] == "C08" and res.get("hang_class"):
                 hc = res["hang_class"]
                 for f in self.kf.get("findings", []):
